@@ -1,4 +1,5 @@
 import Juniper.Model.ParDo
+import Juniper.Proofs.SkeletonPar
 /-! Basic facts for the `parallel.Do` / `DoContext` model: the regenerated guards mean what the
 proofs assume (`Code.Sound`), the clamping arithmetic, and the shape of reachable states. -/
 set_option linter.unusedSimpArgs false
@@ -6,17 +7,20 @@ set_option linter.unusedVariables false
 
 namespace Juniper.Proofs.ParDo
 open Juniper.Gen Juniper.Model.ParDo
+open Juniper.Proofs.SkeletonPar (under pskelDo_ties pskelDoContext_ties pskelMap_tie pskelMapContext_tie)
 
-/-- The guards regenerated from `parallel.Do` are the ones the proofs are about. -/
-theorem doCode_sound : doCode.Sound := by
-  constructor <;> first | decide | (intros; rfl)
+/-- The guards regenerated from `parallel.Do` are the ones the proofs are about, for a body whose
+control skeleton (top level, sequential path, worker loop) is the one `step` hard-wires. -/
+theorem doCode_sound : doCode.Sound :=
+  under pskelDo_ties (by constructor <;> first | decide | (intros; rfl))
 
-/-- The guards regenerated from `parallel.DoContext` are the ones the proofs are about. -/
-theorem dcCode_sound : dcCode.Sound := by
-  constructor <;> first | decide | (intros; rfl)
+/-- The guards regenerated from `parallel.DoContext` are the ones the proofs are about, for a body
+whose control skeleton (top level, sequential path, worker loop) is the one `step` hard-wires. -/
+theorem dcCode_sound : dcCode.Sound :=
+  under pskelDoContext_ties (by constructor <;> first | decide | (intros; rfl))
 
-theorem map_wrappers_structural : mapStructural = true ∧ mapContextStructural = true := by
-  constructor <;> decide
+theorem map_wrappers_structural : mapStructural = true ∧ mapContextStructural = true :=
+  under (And.intro pskelMap_tie pskelMapContext_tie) (by constructor <;> decide)
 
 theorem loopCount_lt (cond : Int → Bool) (p : Int) (hc : ∀ j, cond j = decide (j < p)) :
     ∀ (fuel : Nat) (j : Int), 0 ≤ j → (p - j).toNat ≤ fuel → loopCount cond fuel j = (p - j).toNat := by
